@@ -327,7 +327,8 @@ Lemma map_cmds_length l cs : map_cmds l = inl cs -> length cs = length l.
 Proof.
   revert cs. induction l as [|t l IH]; intros cs; cbn [map_cmds].
   - intros H; now injection H as <-.
-  - destruct (from_tokens t); [|discriminate]. destruct (map_cmds l) as [cs'|]; [|discriminate].
+  - destruct (from_tokens t) as [c|]; [|discriminate]. destruct (is_empty (c_tokens c)); [discriminate|].
+    destruct (map_cmds l) as [cs'|]; [|discriminate].
     intros H; injection H as <-. cbn. now rewrite (IH _ eq_refl).
 Qed.
 
@@ -372,6 +373,7 @@ Proof.
     cbn [length] in Hlen. destruct (filter pipe_tok toks); [reflexivity|cbn in Hlen; lia]. }
   rewrite (split_pipes_no_pipe _ Hnp) in M. cbn [app is_empty] in M. subst toks. cbn [is_empty app map_cmds] in M.
   destruct (from_tokens ((TNone, cmd) :: l)) as [c|] eqn:F; [|discriminate].
+  destruct (is_empty (c_tokens c)); [discriminate|].
   injection M as <-. injection Hcs as ->.
   apply from_tokens_exact in F as [Hhf Hgt].
   (* assemble *)
